@@ -48,6 +48,7 @@ Definition run (kind : Z) (inp : list Z) : list Z :=
   | 1204 => run_enc_policy inp
   | 1701 => run_ram inp
   | 1702 => run_connlimit inp
+  | 1703 => run_ramloop inp
   | 1901 => run_priv_flag inp
   | 2001 => run_owner inp
   | 2002 => run_api_stress inp
@@ -101,6 +102,7 @@ Definition mon (kind : Z) (inp obs : list Z) : bool :=
   | 1204 => list_eqb_Z (run_enc_policy inp) obs
   | 1701 => mon_ram inp obs
   | 1702 => list_eqb_Z (run_connlimit inp) obs
+  | 1703 => list_eqb_Z (run_ramloop inp) obs
   | 1801 => mon_blocklist inp obs
   | 1802 => mon_stree inp obs
   | 1803 => mon_addrlist inp obs
